@@ -94,11 +94,19 @@ def run(chk):
                 ov.append('ovpndec ' + m[3:])
                 if not l.startswith('ovpnctl'):     # a control packet's payload is whatever follows
                     ov.append('ovpndec ' + m[3:] + 'a1b2c3')
+        # RDP negotiation: the specification's bytes through the class of their type, and through the other class (refused);
+        # flags must come back with their value and as members of the flag set of that message type
+        for l, m in zip(lines, model_out):
+            if l.startswith('rdpnegenc') and m.startswith('OK '):
+                ty = l.split(' ')[1]
+                ov += ['rdpnegdec %s %s' % (ty, m[3:]), 'rdpnegdec %s %s' % (ty, m[3:] + 'ffff'), 'rdpnegdec %s %s' % ('2' if ty == '1' else '1', m[3:])]
         for l, m in zip(ov, common.run_model(ov)):
+            m = 'REFUSED' if m == 'NONE' else m
             i = impl.impl_line(l)
+            i = 'REFUSED' if i.startswith('ERR ') else i
             if m != i and nv < 10:
                 nv += 1
-                chk.violation('parsing a conformant OpenVPN packet does not recover the encoded values: implementation %s, specification %s' % (i[:120], m[:120]),
+                chk.violation('parsing a conformant OpenVPN packet / RDP negotiation message does not recover the encoded values: implementation %s, specification %s' % (i[:120], m[:120]),
                               {'cmd': l, 'impl': i, 'spec': m}, None, True)
         extra += ov
         m2 = common.run_model(extra[:len(extra) - len(ov)])
